@@ -1,4 +1,4 @@
-SOURCE_COMMITS = []
+SOURCE_COMMITS = []   # no hook commits; fix: commits in /repo are listed in known_findings.json
 NOTES = ("Every check: (1) regenerates lean/AriVerif/Gen from /repo, (2) lake-builds the property's theorems and audits "
          "axioms, (3) runs the model's executable definitions and the real code on the same inputs / schedules, (4) on a "
          "broken obligation or correspondence searches the real code for a failing input. Exit 2 = infrastructure.")
@@ -14,4 +14,27 @@ CHECKS = {
   "ref": "DESIGN.md §5 C05",
   "note": "trusted: Lean kernel + 3 standard axioms; harness; CPython's quote_plus/unquote_plus are what is being compared (modelled, not verified)",
   "technique": "Lean 4 proof (induction + decide +kernel over 256 bytes) + pure differential correspondence"},
+ "C08": {
+  "text": "Lean theorems over tables regenerated from the source on every run: c08_table (all 18 methods x all library classes, decide "
+          "+kernel against the hand-written ARI designation table), c08_generic (every unrelated class, any MRO), c08_user_subclass, "
+          "c08_line (exact token shape of every error reply); tied by the full 18x16 matrix differential of the real error writers "
+          "and by the Metadata closures run with raising adapters; payload recovery evaluated on the real lines by a conforming decoder.",
+  "ref": "DESIGN.md §5 C08",
+  "note": "trusted: Lean kernel; translator for Gen/Exc.lean; Spec.ariCode written by hand from the property text; Python's except-clause matching modelled as MRO membership",
+  "technique": "Lean 4 proof over generated tables (decide +kernel) + full-matrix differential correspondence"},
+ "C11": {
+  "text": "Lean theorems c11_meta / c11_data (all version strings, absent version) over version functions regenerated from server.py on every "
+          "run, c11_epilogue, c11_no_init_on_refusal, c11_params, c11_error_type, c11_close, c11_hint_independent over the hand-written "
+          "composition Ari.onInit; tied by a differential of the real _on_init on both server kinds over a version grid x parameter maps x "
+          "adapter outcomes, with the compatibility table evaluated on the real replies and initialize arguments.",
+  "ref": "DESIGN.md §5 C11",
+  "note": "trusted: Lean kernel; translator for Gen/Version.lean; Ari.onInit tied by differential only; Python dict semantics modelled",
+  "technique": "Lean 4 proof over definitions translated from the source each run + grid differential correspondence"},
+ "C12": {
+  "text": "Lean theorems c12_rule (the whole decision rule, every configured value and hint in Rat), c12_no_hint, c12_nonpositive, c12_honoured "
+          "over Gen.useHint / configuredMs / initialKeepAlive / changeKeepAlive regenerated from server.py on every run; grid differential "
+          "of the real _use_keep_alive_hint on both server kinds; the rule evaluated on the real code.",
+  "ref": "DESIGN.md §5 C12",
+  "note": "trusted: Lean kernel; translator for Gen/KeepAlive.lean; float arithmetic vs exact Rat on exactly representable grid values",
+  "technique": "Lean 4 proof (grind over core Rat) over a decision tree translated from the source each run + grid differential"},
 }
